@@ -185,6 +185,15 @@ def typeAt : GoType → List Nat → Option GoType
         | t' => typeAt t' rest
   | _, _ :: _ => none
 
+/-- some field on the index path is unexported: reflect refuses to `Set` through it -/
+def readOnlyAt : GoType → List Nat → Bool
+  | _, [] => false
+  | .struct _ _ fs, i :: rest =>
+    match fs[i]? with
+    | none => false
+    | some ht => unexported ht.1.name || readOnlyAt ht.2 rest
+  | _, _ :: _ => false
+
 def listSet (l : List GoVal) (i : Nat) (x : GoVal) : List GoVal :=
   match l, i with
   | [], _ => []
@@ -329,6 +338,10 @@ def stepFields (setv : Registry → JV → GoType → IdxEntry → Step) (t : Go
       | none => stepFields setv t vm r rest cur
       | some m =>
         if isNull m then stepFields setv t vm r rest cur
+        else if readOnlyAt t e.index then
+          -- only a foreign index leads to an unexported field; `Set` panics (a struct slot would only
+          -- panic further down: not modelled)
+          ⟨(match ft with | .struct _ _ _ => .outside | _ => .panic), r⟩
         else
           match setv r m ft e with
           | ⟨.ok x, r'⟩ => stepFields setv t vm r' rest (setAt cur e.index x)
@@ -371,9 +384,12 @@ def recompV (bareName : Bool) (ck : Bytes) : Nat → Registry → Nat → JV →
         | ((some vs, _), r') => ⟨.ok (.iface (.slice .iface) (.slice vs)), r'⟩
         | ((none, s), r') => ⟨s, r'⟩
       | .obj kvs =>
+        -- `if cv := tv[r.CreateKey]; cv != nil { tn, _ := cv.(string); if c := r.composers[tn]; c != nil`
         match (match jvLookup kvs ck with
+               | none => none
+               | some .null => none
                | some (.str tn) => r.find tn
-               | _ => none) with
+               | some _ => r.find []) with
         | some c =>
           -- `rv := reflect.New(c.rtype); r.recomp(v, rv); return rv.Interface()`
           match recompV bareName ck f r 2 j c.rtype none with
